@@ -291,6 +291,7 @@ func (c13) Run(c *engine.Case) *engine.Result {
 	hostSnap := c13HostStruct()
 	mapSnap := c13HostMap()
 	for seed := 1; seed <= 8; seed++ {
+		engine.Heartbeat()
 		seams.SetMapSeed(seed)
 		w := newC13World(backend)
 		var got c13Obs
